@@ -42,6 +42,9 @@ def main() -> int:
     log = [('open', '/x', 'wb'), ('write', '/x', b'abc'), ('close', '/x')]
     if faults.crash_states(log) != [{}, {'/x': b''}, {'/x': b'a'}, {'/x': b'ab'}, {'/x': b'abc'}]:
         failures.append('faults.crash_states wrong')
+    log2 = [('open', '/x.tmp', 'xb'), ('write', '/x.tmp', b'ab'), ('close', '/x.tmp'), ('rename', '/x.tmp', '/x')]
+    if faults.crash_states(log2) != [{}, {'/x.tmp': b''}, {'/x.tmp': b'a'}, {'/x.tmp': b'ab'}, {'/x': b'ab'}] or faults.final_contents(log2) != {'/x': b'ab'}:
+        failures.append('faults.crash_states / final_contents wrong for a write-then-rename protocol')
 
     # BFS engine: a mod-5 counter with inc / double closes at 5 states; a seeded bad state must be reported
     bad = []
